@@ -200,6 +200,9 @@ type Opts struct {
 	NoHandle   bool // do not call driver.HandleReport(server)
 	Nodes      int  // number of SMF node sockets (default 3)
 	Extra      int  // extra sockets per node on another port (default 1 on node 0)
+	// NodeIDs overrides the Node ID a node names itself by (default: the address of its socket); the UPF sends its own
+	// requests to port 8805 of the Node ID, so a node naming an address that cannot be reached never sees them
+	NodeIDs map[int]string
 }
 
 // Net is the per-process loopback subnet 127.<net2>.<net3>.x, reserved by
@@ -487,7 +490,12 @@ func (s *Stack) Sock(ref int) *Sock {
 	}
 }
 
-func (s *Stack) NodeID(i int) string { return s.Net.IP(2 + i) }
+func (s *Stack) NodeID(i int) string {
+	if id, ok := s.Opts.NodeIDs[i]; ok {
+		return id
+	}
+	return s.Net.IP(2 + i)
+}
 
 // Send transmits raw bytes from a peer socket to the UPF.
 func (s *Stack) Send(ref int, b []byte) error {
